@@ -11,9 +11,11 @@ use serde_json::{json, Value};
 fn norm_events(evs: &[Value]) -> Vec<Value> {
     evs.iter()
         .map(|e| {
-            let faulty = e["fault"] != "none";
-            json!({"kind": e["kind"], "fault": e["fault"],
-                   "name": if faulty && e["fault"] == "name" { json!("?") } else { json!(crate::xmlser::name_str(&e["name"])) },
+            // a faulty event ends the call; what was read of it before the fault is immaterial
+            if e["fault"] != "none" {
+                return json!({"kind": e["kind"], "fault": e["fault"]});
+            }
+            json!({"kind": e["kind"], "fault": e["fault"], "name": crate::xmlser::name_str(&e["name"]),
                    "attrs": e["attrs"].as_array().map(|a| a.iter().map(|x| json!(crate::xmlser::name_str(x))).collect::<Vec<_>>()).unwrap_or_default()})
         })
         .collect()
@@ -125,6 +127,7 @@ pub fn record_schema(a: &Args) {
     let mut r = Rng::new(a.num("seed", 1));
     let sessions = a.num("n", 200) as usize;
     let max_elems = a.num("elems", 30) as usize;
+    let damage_pct = a.num("damage", 8) as usize;
     let mut o = Out::create(&a.req("out"));
     let mut calls = 0usize;
     let mut outcomes: std::collections::BTreeMap<String, usize> = Default::default();
@@ -151,7 +154,7 @@ pub fn record_schema(a: &Args) {
                     document(&mut r, &g, &root, budget)
                 }
             };
-            if r.chance(1, 12) {
+            if r.chance(damage_pct, 100) {
                 bytes = damage(&mut r, &bytes);
             }
             let cfg = ReaderCfg::default_cfg();
@@ -161,14 +164,46 @@ pub fn record_schema(a: &Args) {
             *outcomes.entry(out.st().to_string()).or_default() += 1;
             let result = match &out {
                 Outcome::Ok(v) => json!({"st": "ok", "proj": proj(v)}),
-                Outcome::Err { kind, .. } => json!({"st": "err", "kind": kind}),
+                Outcome::Err { kind, position, debug, .. } => json!({"st": "err", "kind": kind, "position": position, "debug": debug}),
                 Outcome::Panic => json!({"st": "panic"}),
             };
-            o.line(&json!({"ev": "Call", "op": op, "events": obs.events, "result": result,
+            o.line(&json!({"ev": "Call", "op": op, "events": obs.events, "result": result, "reader_error": err_json(&obs),
                            "doc": String::from_utf8_lossy(&bytes), "hex": hex(&bytes)}));
             calls += 1;
         }
     }
     let lines = o.finish();
     println!("{}", json!({"kind": "schema-trace", "events": lines, "calls": calls, "sessions": sessions, "outcomes": outcomes}));
+}
+
+/// run the documents of a replay file as one session and log it for SchemaTrace
+pub fn docs_trace(a: &Args) {
+    let v: Value = serde_json::from_str(&std::fs::read_to_string(a.req("docs")).expect("docs file")).expect("json");
+    let mut o = Out::create(&a.req("out"));
+    o.line(&json!({"ev": "Reset"}));
+    let mut sess = Session::new();
+    for d in v["docs"].as_array().expect("docs") {
+        let bytes = unhex(d["hex"].as_str().unwrap_or(""));
+        let cfg = cfg_from(&d["cfg"]);
+        let op = if sess.tree.is_some() { "extend" } else { "parse" };
+        let obs = observe(&bytes, &cfg);
+        let out = sess.feed(&bytes, &cfg, 0);
+        let result = match &out {
+            Outcome::Ok(v) => json!({"st": "ok", "proj": proj(v)}),
+            Outcome::Err { kind, position, debug, .. } => json!({"st": "err", "kind": kind, "position": position, "debug": debug}),
+            Outcome::Panic => json!({"st": "panic"}),
+        };
+        o.line(&json!({"ev": "Call", "op": op, "events": obs.events, "result": result, "reader_error": err_json(&obs),
+                       "doc": String::from_utf8_lossy(&bytes), "hex": hex(&bytes)}));
+    }
+    let lines = o.finish();
+    println!("{}", json!({"kind": "docs-trace", "events": lines}));
+}
+
+/// what the independent reader pass saw as error (position and Debug text), or position -1
+fn err_json(obs: &crate::events::Observed) -> Value {
+    match &obs.error {
+        Some((p, d)) => json!({"position": p, "debug": d}),
+        None => json!({"position": -1, "debug": ""}),
+    }
 }
